@@ -435,3 +435,39 @@ def kwname(chk, repo, rid, mod_prefixes, floor=1, allow=KWNAME_ALLOW):
                            f"{call_name(c)}({k.arg}={k.value.id}): the parameter '{k.value.id}' is passed where '{k.arg}' (another parameter of {f.name}) is expected",
                            key=f"{f.qual}::kwname::{call_name(c)}::{k.arg}", fn=f.qual)
     chk.call_sites += n
+
+
+# ----------------------------------------------------------------------------- a pointer reads exactly its byte range
+def pointer_byte_range(chk, repo, rid, fqual, what, key_suffix='::byte-range', decode_required=True):
+    """In `fqual` the handle is positioned at self.start (absolute seek, or relative seek by self.start - tell()), exactly
+    len(self) / self.end - self.start raw bytes are read, and the result is decoded afterwards (the offsets are byte offsets).
+    Decided on the normal form with definitions expanded: intermediate locals and their names do not matter."""
+    import re
+    from sa import sem
+    lf = repo.func(fqual)
+    chk.uses(lf)
+    nlf = sem.nf(repo, lf)
+    ch = sem.block_chains(nlf)
+    seeks = [(st, c) for st in ast.walk(nlf) if isinstance(st, ast.stmt) and sem.own_stmt(st) for c in sem.calls_in_stmt(st, 'seek')]
+    reads = [(st, c) for st in ast.walk(nlf) if isinstance(st, ast.stmt) and sem.own_stmt(st) for c in sem.calls_in_stmt(st, 'read')]
+    ok = len(seeks) == 1 and len(reads) == 1
+    det = f"{len(seeks)} seek / {len(reads)} read calls"
+    if ok:
+        s_st, s_c = seeks[0]
+        r_st, r_c = reads[0]
+        a0 = unparse(sem.expand_names(nlf, s_st, s_c.args[0], chains=ch, allow_calls=('tell',))) if s_c.args else ''
+        whence = unparse(s_c.args[1]) if len(s_c.args) > 1 else (unparse(kwarg(s_c, 'whence')) if kwarg(s_c, 'whence') is not None else '0')
+        rel = re.sub(r'\s', '', a0)
+        ok_seek = (whence in ('1', 'os.SEEK_CUR') and rel == 'self.start-self.handle.tell()') or (whence in ('0', 'os.SEEK_SET') and rel == 'self.start')
+        ra = unparse(sem.expand_names(nlf, r_st, r_c.args[0], chains=ch)) if r_c.args else ''
+        ok_read = re.sub(r'\s', '', ra) in ('len(self)', 'self.end-self.start')
+        ok = ok_seek and ok_read and unparse(s_c.func.value) == unparse(r_c.func.value)
+        det = f"seek({a0}, {whence}); read({ra})"
+        if ok and decode_required:
+            # the bytes are decoded: a `.decode(` call whose receiver expands to the read call
+            decs = [c for st in ast.walk(nlf) if isinstance(st, ast.stmt) and (sem.own_stmt(st) or isinstance(st, ast.For))
+                    for c in ast.walk(st.iter if isinstance(st, ast.For) else st) if isinstance(c, ast.Call) and isinstance(c.func, ast.Attribute) and c.func.attr == 'decode'
+                    and '.read(' in unparse(sem.expand_names(nlf, st, c.func.value, chains=ch, allow_calls=('read',)))]
+            ok = len(decs) >= 1
+            det += '' if ok else '; the bytes read are not decoded'
+    chk.ob(rid, f"{what} seeks to start and reads end - start bytes", lf.where, ok, f"{what}: {det}", key=lf.qual + key_suffix, fn=lf.qual)
